@@ -205,6 +205,11 @@ func c19Schema() *schema.BodySchema {
 			"lit": {Constraint: schema.LiteralType{Type: cty.String}, IsOptional: true},
 			"obj": {Constraint: schema.Object{Attributes: schema.ObjectAttributes{"foo": anyOf(cty.String), "bar": anyOf(cty.Bool)}}, IsOptional: true},
 			"lst": {Constraint: schema.List{Elem: schema.AnyExpression{OfType: cty.String}}, IsOptional: true},
+			"ra": {Constraint: schema.Reference{Address: &schema.ReferenceAddrSchema{ScopeId: "sx"}}, IsOptional: true},
+			"mp": {Constraint: schema.Map{Elem: schema.AnyExpression{OfType: cty.String}}, IsOptional: true,
+				Address: &schema.AttributeAddrSchema{Steps: schema.Address{schema.StaticStep{Name: "mp"}, schema.AttrNameStep{}}, AsReference: true, AsExprType: true, ScopeId: "sm"}},
+			"ob": {Constraint: schema.Object{Attributes: schema.ObjectAttributes{"foo": anyOf(cty.String), "bar": anyOf(cty.Bool)}}, IsOptional: true,
+				Address: &schema.AttributeAddrSchema{Steps: schema.Address{schema.StaticStep{Name: "ob"}, schema.AttrNameStep{}}, AsReference: true, AsExprType: true, ScopeId: "sm"}},
 			"tgt": {Constraint: schema.AnyExpression{OfType: cty.DynamicPseudoType}, IsOptional: true,
 				Address: &schema.AttributeAddrSchema{Steps: schema.Address{schema.StaticStep{Name: "root"}, schema.AttrNameStep{}}, AsReference: true, AsExprType: true, ScopeId: "st"}},
 		},
@@ -226,6 +231,10 @@ func c19Schema() *schema.BodySchema {
 					}},
 				Address: &schema.BlockAddrSchema{Steps: schema.Address{schema.LabelStep{Index: 0}, schema.LabelStep{Index: 1}}, ScopeId: "sr", BodyAsData: true, InferBody: true, AsReference: true}},
 			"output": {Labels: []*schema.LabelSchema{{Name: "name"}}, Body: &schema.BodySchema{Attributes: map[string]*schema.AttributeSchema{"value": anyOf(cty.DynamicPseudoType)}}},
+			"req": {Body: &schema.BodySchema{
+				Attributes: map[string]*schema.AttributeSchema{"must": {Constraint: schema.AnyExpression{OfType: cty.String}, IsRequired: true}, "opt": anyOf(cty.String),
+					"tags": {Constraint: schema.AnyExpression{OfType: cty.Map(cty.String)}, IsOptional: true, Address: &schema.AttributeAddrSchema{Steps: schema.Address{schema.StaticStep{Name: "req"}, schema.AttrNameStep{}}, ScopeId: "sq", AsReference: true, AsExprType: true}}},
+				Blocks: map[string]*schema.BlockSchema{"link": {Body: &schema.BodySchema{Attributes: map[string]*schema.AttributeSchema{"peer": {Constraint: schema.AnyExpression{OfType: cty.String}, IsRequired: true}, "via": anyOf(cty.String)}}}}}},
 			"plain":  {Body: &schema.BodySchema{Attributes: map[string]*schema.AttributeSchema{"s": anyOf(cty.String)}}},
 		},
 	}
@@ -275,6 +284,24 @@ func c19Configs() [][]citem {
 	out = append(out, []citem{blk("variable", []string{"team"}), blk("mixed", nil, attr("region", cStr("eu")), blk("meta", nil, attr("owner", cRef("var.team"))))})
 	// label-less blocks, several of one type
 	out = append(out, []citem{blk("plain", nil, attr("s", cStr("1"))), blk("plain", nil, attr("s", cRef("var.zz")))})
+	// a body with a required attribute: written, and not written yet (with other content around it)
+	out = append(out, []citem{blk("variable", []string{"a"}), blk("req", nil, attr("must", cRef("var.a")), attr("opt", cStr("o")), attr("tags", cObj("env", cStr("p"))), blk("link", nil, attr("peer", cRef("var.a"))))})
+	out = append(out, []citem{blk("variable", []string{"a"}), blk("req", nil, attr("opt", cRef("var.a")), attr("tags", cObj("env", cStr("p"))), blk("link", nil, attr("via", cRef("var.a"))))})
+	// many blocks of one type followed by attributes (more symbols in one body than a small-slice sort fallback covers)
+	{
+		var many []citem
+		for i := 1; i <= 14; i++ {
+			many = append(many, blk("variable", []string{fmt.Sprintf("v%02d", i)}, attr("default", cNum(fmt.Sprint(i)))))
+		}
+		many = append(many, attr("s", cStr("x")), attr("n", cNum("1")), attr("b", cBool("true")))
+		out = append(out, many)
+		var nested []citem
+		for i := 1; i <= 14; i++ {
+			nested = append(nested, blk("nested", nil, attr("z", cStr(fmt.Sprint(i)))))
+		}
+		nested = append(nested, attr("x", cStr("x")), attr("y", cNum("1")), attr("tags", cObj("k", cStr("v"))))
+		out = append(out, []citem{blk("resource", []string{"aws", "many"}, nested...)})
+	}
 	// several resources
 	out = append(out, []citem{blk("variable", []string{"a"}), blk("resource", []string{"aws", "one"}, attr("x", cStr("1"))), blk("resource", []string{"aws", "two"}, attr("x", cRef("aws.one.x"))), blk("resource", []string{"gcp", "one"}, attr("y", cNum("3")))})
 	return out
@@ -300,13 +327,34 @@ func c19MoreConfigs() [][]citem {
 	return out
 }
 
+// c19JSONOnly: configurations only fed to the safety sweeps in their JSON rendering: string values and object
+// keys holding templates that evaluate to null, to unknown, or not at all.
+func c19JSONOnly() [][]citem {
+	attr := func(n string, v cval) citem { return citem{attr: n, val: v} }
+	odd := []string{`true ? null : "x"`, `null`, `var.a`, `1`, `[`, `"a"`, `true ? var.a : null`}
+	var out [][]citem
+	for _, e := range odd {
+		k := "${" + e + "}"
+		out = append(out, []citem{
+			attr("tgt", cObj(k, cNum("1"), "plain", cRef(e))), attr("mp", cObj(k, cStr("v"), "j", cRef(e))), attr("ob", cObj(k, cStr("v"), "foo", cRef(e))),
+			attr("ra", cRef(e)), attr("r", cRef(e)), attr("s", cRef(e)), attr("lst", cList(cRef(e))), attr("obj", cObj(k, cRef(e))), attr("lit", cRef(e)), attr("m", cObj(k, cRef(e))),
+			{block: "variable", labels: []string{"a"}, body: []citem{attr("default", cObj(k, cRef(e)))}},
+			{block: "resource", labels: []string{"aws", "one"}, body: []citem{attr("tags", cObj(k, cRef(e))), attr("x", cRef(e))}},
+			{block: "locals", body: []citem{attr("p", cObj(k, cRef(e))), attr("q", cRef(e))}},
+		})
+	}
+	return out
+}
+
 // jsonCases: JSON renderings (and their prefixes) of the C19 configurations for the C01/C02 sweeps.
 func jsonCases(tier string) []explore.Case {
 	ent := &gen.Entry{ID: "J:c19", Mk: c19Schema, Family: "struct", Hooks: -1}
 	var out []explore.Case
 	cfgs := append(c19Configs(), c19MoreConfigs()...)
+	nPair := len(cfgs)
+	cfgs = append(cfgs, c19JSONOnly()...)
 	for i, cfg := range cfgs {
-		if tier != "thorough" && i%4 != 0 {
+		if tier != "thorough" && i%4 != 0 && i < nPair {
 			continue
 		}
 		b, err := json.MarshalIndent(renderJSON(cfg, i%2 == 1), "", " ")
@@ -468,7 +516,38 @@ func c19Pair(cfg []citem, arrayForm bool, c *report.Collector, l *report.Local) 
 			bad("symbols:outline-differs", "symbols", fmt.Sprintf("symbol outlines differ\n native: %v\n json:   %v", pn, pj))
 		}
 		l.Count("symbols_compared", int64(len(pn)))
+		// source order: where the configuration keeps the blocks of one type together (so that the JSON
+		// rendering lists its members in the same order as the native one) the outlines are equal as sequences
+		if grouped(cfg) && fmt.Sprint(pn) != fmt.Sprint(pj) && fmt.Sprint(sortSyms(pn)) == fmt.Sprint(sortSyms(pj)) {
+			bad("symbols:order-differs", "symbols", fmt.Sprintf("symbol outlines list the same items in different orders\n native: %v\n json:   %v", pn, pj))
+		}
+		l.Count("symbol_orders_compared", 1)
 	}
+}
+
+// grouped: in every body, the blocks of one type are adjacent and attributes do not sit between them.
+func grouped(items []citem) bool {
+	closed := map[string]bool{}
+	prev := ""
+	for _, it := range items {
+		cur := "attr:" + it.attr
+		if it.block != "" {
+			cur = "block:" + it.block
+			if !grouped(it.body) {
+				return false
+			}
+		}
+		if cur != prev {
+			if closed[cur] {
+				return false
+			}
+			if prev != "" {
+				closed[prev] = true
+			}
+		}
+		prev = cur
+	}
+	return true
 }
 
 func sortSyms(s []projSym) []projSym {
